@@ -825,6 +825,7 @@ pub fn run_sessions(ch: &mut Choices, verbose: bool) -> SessionsReport {
         n_names: ch.range(2, 5),
         unordered_bias: ch.choose(3),
         exotic: false,
+        stop_den: 3,
     };
     let main_format = ch.choose(3) as usize;
     // "soak" runs: one client hammering ONE stateless entry point a few hundred times with mostly
